@@ -335,5 +335,75 @@ def replay_command(case):
     check_command(Ctx(PROPERTY, "command", "quick", 0, 0, 1), case)
 
 
+# ---------------------------------------------------------------- Client.command(): wait / expect loop over reply sequences
+MASK = st.text(alphabet="0123456789x", min_size=1, max_size=3)
+LOOP = st.tuples(st.lists(st.tuples(st.integers(100, 599), st.integers(1, 3)), min_size=1, max_size=6),
+                 st.lists(MASK, max_size=3), st.lists(MASK, max_size=3), st.lists(st.integers(1, 9), max_size=20))
+
+
+def check_cmdloop(ctx, case):
+    replies, expected, wait, cuts = case
+    if not expected and not wait:
+        expected = ["2xx"]
+    lp = loop()
+    norm, data = lp.run_until_complete(_encode([(c, ["line %d" % i for i in range(n)], False) for c, n in replies], "utf-8"))
+
+    async def go():
+        reader = asyncio.StreamReader()
+        cl = aioftp.Client(path_io_factory=aioftp.MemoryPathIO)
+        cl.stream = aioftp.ThrottleStreamIO(reader, None)
+        cl.stream.close = lambda: None
+        pos = 0
+        for c_ in cuts:
+            reader.feed_data(data[pos:pos + c_])
+            pos += c_
+        reader.feed_data(data[pos:])
+        reader.feed_eof()
+        try:
+            code, info = await cl.command(None, tuple(expected), tuple(wait))
+            left = await reader.read()
+            return ("ok", str(code), len(left))
+        except errors.StatusCodeError as e:
+            left = await reader.read()
+            return ("status", str(e.received_codes[-1]), len(left))
+        except ConnectionResetError:
+            return ("eof", None, 0)
+
+    got = lp.run_until_complete(go())
+    # model: skip replies while the code matches any wait mask; the first other reply is the answer
+    sizes = []
+    pos = 0
+    for (code, lines, lst) in norm:
+        n = sum(len(("%s-%s\r\n" % (code, x)).encode()) for x in lines)
+        sizes.append(n)
+    idx = 0
+    while idx < len(norm) and any(spec_matches(norm[idx][0], m) for m in wait):
+        idx += 1
+    if idx >= len(norm):
+        exp = ("eof", None, 0)
+    else:
+        code = norm[idx][0]
+        rest = sum(sizes[idx + 1:])
+        if not expected or any(spec_matches(code, m) for m in expected):
+            exp = ("ok", code, rest)
+        else:
+            exp = ("status", code, rest)
+    ctx.count(case, idx > 0 or exp[0] != "ok", sample=dict(replies=[c for c, _l, _s in norm], expected=expected, wait=wait, outcome=got),
+              classes=["outcome_" + got[0], "skipped_%d" % min(idx, 3)])
+    if got != exp:
+        raise Violation(f"C06/cmdloop/{exp[0]}_expected_got_{got[0]}", dict(replies=[c for c, _l, _s in norm], expected=expected, wait=wait,
+                                                                           got=got, model=exp))
+
+
+def part_cmdloop(ctx):
+    n = 400 if ctx.tier == "quick" else 8000
+    hyp_run(ctx, LOOP, lambda c: check_cmdloop(ctx, c), n, name="cmdloop")
+
+
+def replay_cmdloop(case):
+    from vlib.runner import Ctx
+    check_cmdloop(Ctx(PROPERTY, "cmdloop", "quick", 0, 0, 1), tuple(case))
+
+
 def plan(tier):
-    return [("roundtrip", 8), ("negative", 3), ("command", 2), ("matches", 3)]
+    return [("roundtrip", 8), ("negative", 3), ("command", 2), ("cmdloop", 2), ("matches", 3)]
